@@ -39,6 +39,9 @@ CLAIMED = {
  "C15": ("guard-dominance in the frame decoder (size before allocation, CRC before unmarshal), encoder/decoder framing agreement (offsets, byte order, table, limit), kind and field coverage of the WAL/message codecs, structural guards of the end-height search and of replay/repair, ordering in rotation, lock pairing",
          "Decides that decoding allocates only within the size limit and unmarshals only behind a matching CRC with every non-EOF failure reported as corruption; that encoder and decoder frame identically; that both codecs handle the same kinds and all fields; that the end-height search reports only exact matches and takes its shortcut only for a positive lower height; that replay ends normally only on EOF and repair stops at the first error; and rotation order. Does not decide CRC detection strength or reader positions.",
          "DESIGN.md §4 C15"),
+ "C17": ("guard-dominance checklists (validation, admission, replacement), ordering of promotion/demotion filters, guarded-by lockset with caller-propagated lock summaries for the pool mutex, lock pairing",
+         "Decides that validateTx is a complete checklist against the pool's state view, that add mutates the pool only for unknown validated transactions and replaces only with the price bump, that promotion/demotion apply forward/filter/ready (and the gap rule) before moving transactions, that truncation exempts locals, and that guarded pool state is only touched with the pool mutex held from every entry point. Does not decide the pool invariant over operation sequences.",
+         "DESIGN.md §4 C17"),
  "C18": ("guard-dominance (decode/validate before use, bounds checklists), failure-side ordering (peer stopped before return), nil-tolerance of callees on possibly-nil receivers, lock pairing over all paths, who-may-write of the bit-array representation",
          "Decides the structural defences against hostile peer input: recover-based containment in the receive routine, decode-then-validate dominance in all five reactors, complete per-message bound checklists (including the bit-array representation invariant and the proposal part count), capacity-guarded reassembly and framing, nil-safe use of the initial height's nil last commit, and release of every lock on every path in 17 packages. Does not decide absence of every implicit run-time panic.",
          "DESIGN.md §4 C18"),
